@@ -561,7 +561,7 @@ def r17d(ctx):
     if len(tr) == 1 and len(so) == 1:
         cut_end, cut_start, muts = a.arg(tr[0], 1), a.arg(so[0], 1), [tr[0], so[0]]
     else:
-        sl = [c for c in a.calls('core::ops::index::Index::index') if range_parts(a.arg(c, 1)) and flow.mentions(a.arg(c, 0), lambda z: z[0] == 'call' and z[-1] == dl)]
+        sl = [c for c in a.calls('core::ops::index::Index::index') if range_parts(a.arg(c, 1)) and all(_deref(x_)[0] == 'index' for x_ in range_parts(a.arg(c, 1)))]
         if len(sl) == 1:
             cut_start, cut_end = range_parts(a.arg(sl[0], 1))
             muts = [sl[0]]
